@@ -28,35 +28,101 @@ func mk(n int, base int32) []row {
 	return rs
 }
 
+type opt struct {
+	n1, n2     int
+	idx1, idx2 index_constants.IndexKind
+	stats      bool
+	filter     int  // 0 none, 1 t1.k >= c (outer/base side), 2 t2.y >= c (other table: inner side of an index join)
+	checkPins  bool
+	concrete2  bool // t2 keys are the concrete values 10,20,.. (keeps larger inner tables cheap)
+	lo1, hi1   int32 // if hi1 > lo1: t1 keys are assumed within [lo1, hi1] (stated value-range bound of the quick tier)
+	conc1      int  // the last conc1 rows of t1 get concrete keys 10,20,.. instead of symbolic ones
+	wide       int  // >0: both tables carry (and the query selects) a varchar payload of this many bytes, so the
+	// build side of a hash join spans several temporary pages
+}
+
+func wideVal(n int, tag int32) types.Value {
+	b := make([]byte, n)
+	for i := range b {
+		b[i] = 'a' + byte(tag%23)
+	}
+	return types.NewVarchar(string(b))
+}
+
 func scenario(n1, n2 int, idx1, idx2 index_constants.IndexKind, stats bool, filter bool, checkPins bool) {
+	f := 0
+	if filter {
+		f = 1
+	}
+	scenarioO(opt{n1: n1, n2: n2, idx1: idx1, idx2: idx2, stats: stats, filter: f, checkPins: checkPins})
+}
+
+func scenarioO(o opt) {
 	db := sysx.Open("vfc11", 32)
-	db.CreateTable("t1", []sysx.ColDef{{"k", types.Integer, idx1}, {"x", types.Integer, index_constants.IndexKindInvalid}})
-	db.CreateTable("t2", []sysx.ColDef{{"k", types.Integer, idx2}, {"y", types.Integer, index_constants.IndexKindInvalid}})
-	r1, r2 := mk(n1, 100), mk(n2, 200)
+	c1 := []sysx.ColDef{{"k", types.Integer, o.idx1}, {"x", types.Integer, index_constants.IndexKindInvalid}}
+	c2 := []sysx.ColDef{{"k", types.Integer, o.idx2}, {"y", types.Integer, index_constants.IndexKindInvalid}}
+	if o.wide > 0 {
+		c1 = append(c1, sysx.ColDef{"w", types.Varchar, index_constants.IndexKindInvalid})
+		c2 = append(c2, sysx.ColDef{"v", types.Varchar, index_constants.IndexKindInvalid})
+	}
+	db.CreateTable("t1", c1)
+	db.CreateTable("t2", c2)
+	r1 := mk(o.n1-o.conc1, 100)
+	for i := 0; i < o.conc1; i++ {
+		r1 = append(r1, row{int32(10 * (i + 1)), 150 + int32(i)})
+	}
+	if o.hi1 > o.lo1 {
+		for _, r := range r1 {
+			vf.Assume(r.k >= o.lo1 && r.k <= o.hi1)
+		}
+	}
+	var r2 []row
+	if o.concrete2 {
+		for i := 0; i < o.n2; i++ {
+			r2 = append(r2, row{int32(10 * (i + 1)), 200 + int32(i)})
+		}
+	} else {
+		r2 = mk(o.n2, 200)
+	}
 	for _, r := range r1 {
-		db.Auto(sysx.Insert("t1", []string{"k", "x"}, []types.Value{types.NewInteger(r.k), types.NewInteger(r.tag)}))
+		cols, vals := []string{"k", "x"}, []types.Value{types.NewInteger(r.k), types.NewInteger(r.tag)}
+		if o.wide > 0 {
+			cols, vals = append(cols, "w"), append(vals, wideVal(o.wide, r.tag))
+		}
+		db.Auto(sysx.Insert("t1", cols, vals))
 	}
 	for _, r := range r2 {
-		db.Auto(sysx.Insert("t2", []string{"k", "y"}, []types.Value{types.NewInteger(r.k), types.NewInteger(r.tag)}))
+		cols, vals := []string{"k", "y"}, []types.Value{types.NewInteger(r.k), types.NewInteger(r.tag)}
+		if o.wide > 0 {
+			cols, vals = append(cols, "v"), append(vals, wideVal(o.wide, r.tag))
+		}
+		db.Auto(sysx.Insert("t2", cols, vals))
 	}
-	if stats {
+	if o.stats {
 		db.UpdateStats("t1")
 		db.UpdateStats("t2")
 	}
 	var where *parser.BinaryOpExpression
 	c := vf.I32()
 	vf.Assume(c != 2147483647 && c != -2147483648)
-	if filter {
+	switch o.filter {
+	case 1:
 		where = sysx.Cmp("t1.k", expression.GreaterThanOrEqual, types.NewInteger(c), false)
+	case 2:
+		where = sysx.Cmp("t2.y", expression.GreaterThanOrEqual, types.NewInteger(c), false)
 	}
-	qi := sysx.SelectJoin("t1", "t2", [][2]string{{"t2", "y"}, {"t1", "x"}}, "t1.k", "t2.k", where)
+	sel := [][2]string{{"t2", "y"}, {"t1", "x"}}
+	if o.wide > 0 {
+		sel = append(sel, [2]string{"t1", "w"}, [2]string{"t2", "v"})
+	}
+	qi := sysx.SelectJoin("t1", "t2", sel, "t1.k", "t2.k", where)
 	before := db.Pins()
 	vf.MapOrdersIn("findBestJoin") // which table becomes base / join side depends on map iteration order
 	rows, sc, ab := db.Auto(qi)
 	vf.MapOrdersIn("")
 	vf.Assert(!ab, "join query is not aborted")
 	vf.Cover("c11.joined")
-	if checkPins {
+	if o.checkPins {
 		vf.Assert(sysx.SamePins(before, db.Pins()), "join statement releases every pin it took")
 		return
 	}
@@ -64,7 +130,14 @@ func scenario(n1, n2 int, idx1, idx2 index_constants.IndexKind, stats bool, filt
 	want := 0
 	for _, a := range r1 {
 		for _, b := range r2 {
-			if a.k == b.k && (!filter || a.k >= c) {
+			keep := true
+			switch o.filter {
+			case 1:
+				keep = a.k >= c
+			case 2:
+				keep = b.tag >= c
+			}
+			if a.k == b.k && keep {
 				want++
 				found := 0
 				for _, out := range rows {
@@ -93,3 +166,29 @@ func VF_C11_Empty()           { scenario(0, 2, none, sl, true, false, false) }
 // C14 variants: same statements, oracle = pins before == pins after
 func VF_C14_Join_Hash()  { scenario(2, 2, none, none, true, false, true) }
 func VF_C14_Join_Index() { scenario(1, 3, none, sl, true, false, true) }
+
+// index join with two outer rows against a five-row indexed inner table (index join is the cheapest plan:
+// 3*2 < 2+5); the outer keys are symbolic, so "first outer row unmatched, second matched" is covered
+func VF_C11_Index_2x5() {
+	scenarioO(opt{n1: 2, n2: 5, idx1: none, idx2: sl, stats: true, concrete2: true})
+}
+
+func VF_C11_Index_2x5_Near() {
+	scenarioO(opt{n1: 2, n2: 5, idx1: none, idx2: sl, stats: true, concrete2: true, lo1: 5, hi1: 25})
+}
+func VF_C11_Index_2x5_InnerFilter_Near() {
+	scenarioO(opt{n1: 2, n2: 5, idx1: none, idx2: sl, stats: true, concrete2: true, filter: 2, lo1: 5, hi1: 25})
+}
+
+// the WHERE clause constrains the table that becomes the inner side of the index join
+func VF_C11_Index_2x5_InnerFilter() {
+	scenarioO(opt{n1: 2, n2: 5, idx1: none, idx2: sl, stats: true, concrete2: true, filter: 2})
+}
+
+// hash join whose build side does not fit one temporary page (3 rows of ~1.5 KB)
+func VF_C14_Join_Hash_Wide() {
+	scenarioO(opt{n1: 3, n2: 3, idx1: none, idx2: none, stats: true, wide: 1500, checkPins: true, concrete2: true, conc1: 2, lo1: 5, hi1: 25})
+}
+func VF_C11_Hash_Wide() {
+	scenarioO(opt{n1: 3, n2: 3, idx1: none, idx2: none, stats: true, wide: 1500, concrete2: true, conc1: 2, lo1: 5, hi1: 25})
+}
